@@ -81,7 +81,7 @@ func genC19(r *rand.Rand, idx int, tier string) *CliCase {
 	case 5, 6, 7:
 		c.Kind = "opb"
 		o := genC03(r, idx, tier)
-		for o.P.Front != "opb" || o.hasNegCost() {
+		for o.P.Front != "opb" {
 			idx += 7919
 			o = genC03(caseRand(int64(idx), idx), idx, tier)
 		}
